@@ -69,7 +69,7 @@ def validate(ctx, pid, scs, tag):
 
 
 def finding_for(ctx, clause, sc, trace, b):
-    for fid, f in ctx.open_findings.items():
+    for fid, f in ctx.all_open_findings.items():      # (the clause may be owned by another property: see APP_CROSS)
         if f.get("clause") != clause:
             continue
         pat = f.get("pattern")
